@@ -94,7 +94,7 @@ def build_harness(race=False, tags="verif", cmd="nrpverif"):
     fcntl.flock(lock, fcntl.LOCK_EX)
     try:
         sync_gomod()
-        gocmd = ["go", "build", "-tags", tags] + (["-race"] if race else []) + ["-o", binp, "./cmd/" + cmd]
+        gocmd = ["go", "build", "-tags", tags] + (["-race"] if race else []) + overlay_args() + ["-o", binp, "./cmd/" + cmd]
         rc, out = sh(gocmd, timeout=1200, env=go_env(), cwd=HARNESS)
         if rc != 0:
             raise Inconclusive("harness build failed:\n" + out[-6000:])
@@ -104,9 +104,18 @@ def build_harness(race=False, tags="verif", cmd="nrpverif"):
     return binp
 
 
-def go_test_overlay_pkg(pkg_rel, test_file, run, env_extra=None, timeout=900, tags="verif"):
-    """Run an in-package verif test living in /repo (tagged) -- used for package-main plugins."""
-    cmd = ["go", "test", "-tags", tags, "-count=1", "-vet=off", "-run", run, "./" + pkg_rel]
+def overlay_args():
+    """Self-test support: VERIF_OVERLAY=<overlay.json> builds with `go build -overlay` so that a mutated copy of a
+    repository source file can be checked without touching /repo (see ENGINE_GUIDE.md).  Never set in MANIFEST commands."""
+    ov = os.environ.get("VERIF_OVERLAY")
+    return ["-overlay", ov] if ov else []
+
+
+def go_test_pkg(pkg_rel, run, env_extra=None, timeout=900, tags="verif", race=False):
+    """Run an in-package verif test living in /repo (files tagged `verif`) -- used for package-main plugins and
+    unexported internals.  Returns (rc, output)."""
+    cmd = ["go", "test", "-tags", tags, "-count=1", "-vet=off"] + (["-race"] if race else []) + overlay_args() + \
+          ["-run", run, "./" + pkg_rel]
     return sh(cmd, timeout=timeout, env=go_env(env_extra), cwd=REPO)
 
 
